@@ -8,7 +8,7 @@ harness against the rebuilt library, run it, feed the same op lines to the Lean 
 diff, (6) evaluate the model-independent property oracle lines of the harness, (7) decide,
 write evidence, exit.
 """
-import fcntl, hashlib, json, os, re, subprocess, sys, time, contextlib
+import fcntl, hashlib, json, os, re, shutil, subprocess, sys, time, contextlib
 
 ROOT = os.path.dirname(os.path.abspath(__file__))
 BUILD = os.path.join(ROOT, ".build")
@@ -36,10 +36,10 @@ def sh(cmd, cwd=None, env=None, timeout=None, stdin=None):
 
 
 @contextlib.contextmanager
-def lock(name):
+def lock(name, shared=False):
     os.makedirs(os.path.join(BUILD, "locks"), exist_ok=True)
-    f = open(os.path.join(BUILD, "locks", name), "w")
-    fcntl.flock(f, fcntl.LOCK_EX)
+    f = open(os.path.join(BUILD, "locks", name), "a")
+    fcntl.flock(f, fcntl.LOCK_SH if shared else fcntl.LOCK_EX)
     try:
         yield
     finally:
@@ -61,7 +61,13 @@ def build_repo(asan=False):
                           "-DCMAKE_CXX_FLAGS=" + flags, "-DBUILD_TESTS=OFF", "-DBUILD_EXAMPLES=OFF"])
             if rc != 0:
                 return False, out
-        rc, out = sh(["cmake", "--build", d, "-j", NPROC])
+        # nothing to do (the usual case): do not wait for harnesses of other checks that have the library loaded
+        rc, out = sh(["ninja", "-C", d, "-n"])
+        if rc == 0 and "no work to do" in out:
+            return True, out
+        # the library is relinked in place: wait until no harness of another check is running against it
+        with lock(("repo-asan" if asan else "repo-rel") + ".use"):
+            rc, out = sh(["cmake", "--build", d, "-j", NPROC])
         return rc == 0, out
 
 
@@ -157,8 +163,9 @@ def audit(pid, module, names):
 
 
 # ----------------------------------------------------------------------------- harness
-def build_harness(name, asan=False):
-    """asan: False | True (harness instrumented, release library) | "lib" (harness AND library instrumented)"""
+def build_harness(name, asan=False, tag=None):
+    """asan: False | True (harness instrumented, release library) | "lib" (harness AND library instrumented).
+    tag: build a private copy .build/harness/<name>.<tag> (checks running side by side share harness sources)."""
     extra = []
     if asan == "lib":
         ok, out = build_repo(asan=True)
@@ -169,7 +176,8 @@ def build_harness(name, asan=False):
         extra = ["asan"]
     # hold the library's lock while linking: another check may be relinking libQXmpp right now
     with lock("repo-asan" if asan == "lib" else "repo-rel"):
-        return_code, out = sh([os.path.join(ROOT, "harness", "build.sh"), name] + extra, timeout=900)
+        env = {"VERIF_HARNESS_OUT": os.path.join(BUILD, "harness", "%s.%s" % (name, tag))} if tag else None
+        return_code, out = sh([os.path.join(ROOT, "harness", "build.sh"), name] + extra, timeout=900, env=env)
     return return_code == 0, out
 
 
@@ -185,15 +193,15 @@ class HarnessOut:
         self.last_input = ""
 
 
-def run_harness(name, args, timeout=1500, env=None):
-    exe = os.path.join(BUILD, "harness", name)
+def run_harness(name, args, timeout=1500, env=None, tag=None, libkind="repo-rel"):
+    exe = os.path.join(BUILD, "harness", "%s.%s" % (name, tag) if tag else name)
     e = {"ASAN_OPTIONS": "detect_leaks=0:abort_on_error=0:exitcode=99", "UBSAN_OPTIONS": "print_stacktrace=1:exitcode=98"}
     if env:
         e.update(env)
-    outp = os.path.join(BUILD, "harness", name + ".out")
-    errp = os.path.join(BUILD, "harness", name + ".err")
+    outp, errp = exe + ".out", exe + ".err"
     full_env = dict(os.environ); full_env.setdefault("QT_QPA_PLATFORM", "offscreen"); full_env.update(e)
-    with open(outp, "w") as fo, open(errp, "w") as fe:
+    # shared lock: the library this harness has loaded must not be relinked by another check meanwhile
+    with open(outp, "w") as fo, open(errp, "w") as fe, lock(libkind + ".use", shared=True):
         try:
             rc = subprocess.run([exe] + args, stdout=fo, stderr=fe, env=full_env, timeout=timeout, cwd=BUILD).returncode
         except subprocess.TimeoutExpired:
@@ -225,6 +233,18 @@ def run_harness(name, args, timeout=1500, env=None):
     with open(errp, encoding="utf8", errors="replace") as fe:
         err = fe.read()
     h.tail = err[-3000:]
+    if tag:   # keep the last output under the plain name for debugging, drop the private binary
+        for suffix in (".out", ".err"):
+            try:
+                os.replace(exe + suffix, os.path.join(BUILD, "harness", name + suffix))
+            except OSError:
+                pass
+        for pth in (exe, ):
+            try:
+                os.remove(pth)
+            except OSError:
+                pass
+        shutil.rmtree(exe + ".moc.d", ignore_errors=True)
     return h
 
 
@@ -359,14 +379,16 @@ class Check:
 
     def run_harness(self, hs, lean_ok):
         name = hs["name"]
-        ok, out = build_harness(name, hs.get("asan", False))
+        tag = "%s.%d" % (self.pid, os.getpid())
+        ok, out = build_harness(name, hs.get("asan", False), tag=tag)
         if not ok:
             # the harness is ours; if it stops compiling against the tree the tie is broken
             self.broken.append({"what": "harness %s does not compile against the current tree" % name, "detail": out[-3000:]})
             self.log("harness", name, "BUILD FAILED")
             return
         args = ["--tier", self.tier, "--seed", str(self.seed)] + hs.get("args", [])
-        h = run_harness(name, args, timeout=hs.get("timeout", 1500 if self.tier == "quick" else 6000), env=hs.get("env"))
+        h = run_harness(name, args, timeout=hs.get("timeout", 1500 if self.tier == "quick" else 6000), env=hs.get("env"),
+                        tag=tag, libkind="repo-asan" if hs.get("asan") == "lib" else "repo-rel")
         self.log("harness %s rc=%d corr-lines=%d oracle pass=%d fail=%d" % (name, h.rc, len(h.ops), h.passed, len(h.fails)))
         self.cov["stats"][name] = h.stats
         self.cov["samples"] += h.samples
